@@ -18,6 +18,34 @@ CLAIMS = {
   text="Deductive proof of ownership (region) obligations at every value-carrying API edge, on all paths: values returned by build_file_with_comparison, subbuild and _exec_simple_operation (all query methods) are fresh copies (provenance flag of the interpreter: created by copy.deepcopy/JsonUtil.sanitize after entry, or provably an immutable atom); every JSON argument handed to a user function in _rebuild_file and _subbuild is a fresh copy (obligation at the callback call site); JsonUtil.sanitize's result shares no mutable structure with its argument; arguments stored in records are sanitize results.",
   note="Assumes copy.deepcopy returns an equal value sharing no mutable structure; container fields are uniquely owned (value semantics); user code reaches records only through the API (no private attribute access).",
   ref="DESIGN.md 5 C11"),
+ 'C03': dict(
+  text="Deductive proof of one ghost-precondition (guard) obligation per destructive call site, on all paths: every os.remove / os.rmdir / os.rename(via back_up_and_remove) / rmtree / cache write reached in clean, _commit, _roll_back, _rebuild_file (failed target), _make_dirs, _make_room, _build_file, _build and build_versioned carries the statement's condition (only outputs recorded by the previous build, targets of this build or the cache file are removed or moved; only directories recorded as created by this or the previous build are rmdir'ed; rmtree only on the mkdtemp result; only the cache file is written); a destructive primitive reached at a site without a guard is itself a failing obligation.",
+  note="FileBackups' own rename/replace/makedirs/rmtree and BuildDirs' scan are trusted contracts backed by bounded stand-ins (listed in the evidence); OS axioms of pyvc/libfs.py (rmdir succeeds only on empty directories; no symlinks); user functions write only their target (hypothesis of the statement).",
+  ref="DESIGN.md 5 C03"),
+ 'C12': dict(
+  text="Deductive proof for clean, on all paths: any exception leaves the effect trace empty; removals only of files recorded as created in the cache read from the cache file, plus the cache file; rmdir only of recorded created directories, after validation of the build name; the recorded created-directory set is exactly BuildDirs' created map plus the directories made for the cache file (_set_created_dirs, Cache.add_created_dirs, BuildDirs.created_dirs verified).",
+  note="Not decided: that every recorded file is attempted (coverage), idempotence as a theorem, and that BuildDirs' created map equals what a from-scratch build would create (needs C01's composition; BuildDirs reservation machine is a trusted contract with a bounded stand-in).",
+  ref="DESIGN.md 5 C12"),
+ 'C02': dict(
+  text="Deductive proof over _build, _roll_back and the backup call sites, on all paths: every Exception leaving the try block of _build (directory set-up, root function, bookkeeping, cache write) closes the builder, runs _roll_back (backups consumed) and re-raises; _roll_back cannot raise (no exceptional path) and only removes files built by this build and directories made by this build, recreates only directories recorded by the previous build; every move-aside is of the cache file, an old output or the call's own target (backed up before destroyed); the cache file is rewritten only after the root function returned and the old one was moved aside.",
+  note="Not decided: the exact post-rollback tree (R4: defects D4 'rebuilt output whose old copy was deleted externally survives rollback' and D5 'truncated cache file after a failed first write' described in DESIGN.md section 6 are NOT expressed by an obligation yet); FileBackups.restore_all/back_up_and_remove are trusted contracts with a bounded stand-in; BaseException other than Exception is outside the statement.",
+  ref="DESIGN.md 5 C02"),
+ 'C06': dict(
+  text="Deductive proof that a function is skipped only if its version is unchanged, for all record trees: the ghost predicate versions_ok (own version JSON-equal and versions_ok of every complex suboperation, least fixpoint) is implied by a True result of _is_build_file_operation_cached / _is_subbuild_operation_cached, by every hit of _build_file_cache_lookup / _subbuild_cache_lookup, by the loop invariant of _are_suboperations_cached, and by the reuse branches of _subbuild and _try_to_reuse_cached_file; get_func_version returns None for absent names; version comparison is JsonUtil.is_equal whose contract is the spec jeq (C18 lemmas: 1 == 1.0, True != 1, key order irrelevant).",
+  note="Assumes records read from the cache file are well-typed (ghost predicate RWF, an assumption on the input) and immutable during the build; persistence of versions through the cache file is the trusted file layer (bounded stand-in cache_forest); 'result equals from-scratch' is C01.",
+  ref="DESIGN.md 5 C06"),
+ 'C08': dict(
+  text="Deductive proof, sequential: _build_file raises RuntimeError with empty effect trace, no callback and no change to any existing object when its path is already claimed or finished in this build (or is the cache file); _subbuild likewise when the subbuild key is taken; claims are single map updates under the documented lock (lockset obligations on Cache); a True result of the replay functions implies the record is not setup-failed and its path is unclaimed; attempts are recorded on the caller's record, closed; subbuild keys are the hashable form of [name, args, kwargs] (key lemma of C18).",
+  note="Threads: only the atomic-section (lockset) obligations are decided; all-or-nothing registration of a reused subtree (Cache.use_cached_operation) is a trusted contract with the bounded stand-in cache_forest.",
+  ref="DESIGN.md 5 C08"),
+ 'C10': dict(
+  text="Deductive proof over _build_file, _rebuild_file, _prepare_file_creation, _make_dirs, _make_room and build_file_with_comparison, on all paths including OSError from every mutating primitive: normal return implies the record is closed, not raised and registered, the user function was called once with fresh copies of the sanitized arguments; any Exception closes the record and marks it raised (KeyboardInterrupt passes through); a failing _make_dirs has attempted rmdir on every directory it created; the error-created directories returned by _set_created_dirs are exactly BuildDirs' error set.",
+  note="BuildDirs' reservation bookkeeping (virtual removal of directories on failure) is a trusted contract with a bounded stand-in; 'target absent when the function starts' is proved only as 'moved aside / not a directory'.",
+  ref="DESIGN.md 5 C10"),
+ 'C14': dict(
+  text="Deductive proof with fault injection in the model: every mutating primitive (mkdir, rmdir, remove, rename, replace, makedirs, cache write) may raise an OSError subclass without effect on every call; under that model _make_dirs leaves no directory without an rmdir attempt, _build_file/_rebuild_file/_subbuild/_apply_cached_suboperations keep the record invariants on every exceptional exit, _build turns any such Exception into close + roll back + re-raise, _roll_back itself never raises.",
+  note="FileBackups and BuildDirs are trusted contracts (bounded stand-ins); release of reservations on the error paths of _build_file is not expressed (BuildDirs trusted); failures during commit are outside the statement.",
+  ref="DESIGN.md 5 C14"),
 }
 NA_REASON = {
  'C09': "quantifies over thread schedules between critical sections; pyvc has sequential semantics and contracts cannot express or explore interleavings (DESIGN.md section 7)",
